@@ -254,13 +254,20 @@ def scope_unknown_rule(a: str, b: str, rule: str, maxlen: int) -> str:
     return orc.result()
 
 
-PARTNERS = ('ab://h/a', 'ab:/a/b', '', '//h?q')
+def _plain(text):
+    """Reflexivity is demanded for ASCII texts without brackets (everything else may be no URI at all: IPv6 literal syntax,
+    NFKC-unstable host characters), totality for every text."""
+    return text.isascii() and '[' not in text and ']' not in text
 
 
-def scope_laws_sym(a: str, partner: int, maxlen: int) -> str:
+PARTNERS = ('ab://h/a', 'ab:/a/b', 'a', '//h?q')
+
+
+def scope_laws_sym(a: str, partner: int, maxlen: int, ascii_only: bool = False) -> str:
     """
-    Unconstrained symbolic scope text: rfc3986 matching is total (never raises) and reflexive.
+    Unconstrained symbolic scope text (optionally ASCII only): rfc3986 matching is total (never raises) and reflexive.
     pre: len(a) <= maxlen
+    pre: a.isascii() or not ascii_only
     pre: 0 <= partner < 4
     post: __return__ == 'ok'
     """
@@ -269,7 +276,7 @@ def scope_laws_sym(a: str, partner: int, maxlen: int) -> str:
     try:
         try:
             r = match_scope(a, a, MatchBy.uri)
-            orc.check(r, 'rfc3986-not-reflexive')
+            orc.check(r or not _plain(a), 'rfc3986-not-reflexive')
             match_scope(a, p, MatchBy.uri)
             match_scope(p, a, MatchBy.uri)
         except ValueError as ex:
@@ -302,7 +309,7 @@ def scope_total_sel(c0: int, c1: int, c2: int, c3: int, n: int, partner: int) ->
         orc = Oracle()
         try:
             try:
-                orc.check(match_scope(a, a, MatchBy.uri), 'rfc3986-not-reflexive')
+                orc.check(match_scope(a, a, MatchBy.uri) or not _plain(a), 'rfc3986-not-reflexive')
                 match_scope(a, p, MatchBy.uri)
                 match_scope(p, a, MatchBy.uri)
             except ValueError as ex:
@@ -441,22 +448,22 @@ def filter_scopes(sk: int, si: int, sj: int, pk: int, pi: int, pj: int, rule: in
 
 
 # prepared services for filter_services / Probe: (types, scope indices)
-SVC_KINDS = (((T1,), (0,)), ((T1, T2), (1, 3)), ((T2,), (2,)), ((), ()), (None, None))
+SVC_KINDS = (((T1,), (0,)), ((T1, T2), (1, 3)), ((T2,), (2,)), ((), None), (None, ()))
 PROBES = ((None, None), ((), None), ((T1,), None), ((T2,), (0,)), ((T1,), (0,)), ((T1, T2), (0, 3)), (None, (2,)), ((T3,), None),
           ((T1,), (1,)))
 
 
-def filter_list(ka: int, kb: int, kc: int, p: int, rule: int) -> str:
+def filter_list(ka: int, kb: int, kc: int, nk: int, p: int, rule: int) -> str:
     """
-    filter_services returns exactly the matching services, in order.
-    pre: 0 <= ka < 5
-    pre: 0 <= kb < 5
-    pre: 0 <= kc < 5
+    filter_services returns exactly the matching services, in order (nk = number of service kinds used; the 5th has Types=None).
+    pre: 0 <= ka < nk
+    pre: 0 <= kb < nk
+    pre: 0 <= kc < nk
     pre: 0 <= p < 9
     pre: 0 <= rule < 4
     post: __return__ == 'ok'
     """
-    r5 = (0, 1, 2, 3, 4)
+    r5 = (0, 1, 2, 3, 4)[:nk]
     kinds = [pick(ka, r5), pick(kb, r5), pick(kc, r5)]
     p, rule = pick(p, tuple(range(9))), pick(rule, (0, 1, 2, 3))
     with untraced():
